@@ -23,6 +23,42 @@ def decode_labels(labels):
     return grp, idx
 
 
+def decode_groups(F):
+    """identifier -> (group number, index tuple) through the formula's variable
+    groups: group number = order of creation among non-empty groups, index
+    tuple = what the group's own indices() enumerates for that identifier
+    (labels are exactly these indices pushed through a format string, but some
+    format strings, e.g. 'x_{{{0}{1}}}', are not decodable).  Identifiers
+    outside every group get group 0 and index (id,).  Returns None when the
+    formula does not expose variable groups."""
+    groups = getattr(F, "_groups", None)
+    if groups is None:
+        return None
+    n = F.number_of_variables()
+    grp = [0] * n
+    idx = [[v + 1] for v in range(n)]
+    rank = 0
+    for g in groups:
+        if len(g) == 0:
+            continue
+        rank += 1
+        ids = list(g.ids) if hasattr(g, "ids") else [g[k] for k in range(len(g))]
+        try:
+            tuples = [list(t) if isinstance(t, (tuple, list)) else [t] for t in g.indices()]
+        except Exception:
+            return None
+        if len(tuples) == 1 and tuples[0] == [None]:
+            tuples = [[]]
+        if len(tuples) != len(ids):
+            return None
+        for v, t in zip(ids, tuples):
+            if not (1 <= v <= n):
+                return None
+            grp[v - 1] = rank
+            idx[v - 1] = [int(x) for x in t]
+    return grp, idx
+
+
 def clauses_of(F):
     return [[int(l) for l in c] for c in F.clauses()]
 
@@ -42,8 +78,15 @@ def is_opb(F):
 def formula(F, with_header=False):
     """Project a CNF or OPB object."""
     labels = [str(x) for x in F.all_variable_labels()]
-    grp, idx = decode_labels(labels)
-    rec = {"nvars": int(F.number_of_variables()), "labels": labels, "grp": grp, "idx": idx}
+    dg = decode_groups(F)
+    if dg is None:
+        grp, idx = decode_labels(labels)
+        binding = "labels"
+    else:
+        grp, idx = dg
+        binding = "groups"
+    rec = {"nvars": int(F.number_of_variables()), "labels": labels, "grp": grp, "idx": idx,
+           "binding": binding}
     if is_opb(F):
         rec["cls"] = "OPB"
         rec["constraints"] = constraints_of(F)
